@@ -59,10 +59,18 @@ var tlsSecrets = []secretID{{"ns1", "s"}, {"ns2", "s"}, {"ns2", "only2"}, {"ns2"
 // genericSecrets: opaque secrets with cert, key, cacert
 var genericSecrets = []secretID{{"ns1", "g"}, {"ns2", "g"}}
 
+// key/cert secrets WITHOUT a CA part whose own name ends in -cacert (the suffix that, in a resource
+// name, asks for the CA part of a secret): kubernetes.io/tls with tls.crt + tls.key only, and opaque
+// with cert + key only
+var tlsNoCASecrets = []secretID{{"ns1", "k-cacert"}, {"ns2", "k-cacert"}}
+var genericNoCASecrets = []secretID{{"ns1", "j-cacert"}}
+
 var configMaps = []secretID{{"ns1", "c"}, {"ns2", "c"}}
 
 func hasKeyMaterial(ns, n string) bool {
-	for _, s := range append(append([]secretID{}, tlsSecrets...), genericSecrets...) {
+	all := append(append([]secretID{}, tlsSecrets...), genericSecrets...)
+	all = append(append(all, tlsNoCASecrets...), genericNoCASecrets...)
+	for _, s := range all {
 		if s.NS == ns && s.Name == n {
 			return true
 		}
@@ -91,6 +99,26 @@ func kubeObjects() []runtime.Object {
 				"cert":   []byte(certOf(s.NS, s.Name)),
 				"key":    []byte(keyOf(s.NS, s.Name)),
 				"cacert": []byte(caOf(s.NS, s.Name)),
+			},
+		})
+	}
+	for _, s := range tlsNoCASecrets {
+		out = append(out, &corev1.Secret{
+			ObjectMeta: metav1.ObjectMeta{Name: s.Name, Namespace: s.NS},
+			Type:       corev1.SecretTypeTLS,
+			Data: map[string][]byte{
+				"tls.crt": []byte(certOf(s.NS, s.Name)),
+				"tls.key": []byte(keyOf(s.NS, s.Name)),
+			},
+		})
+	}
+	for _, s := range genericNoCASecrets {
+		out = append(out, &corev1.Secret{
+			ObjectMeta: metav1.ObjectMeta{Name: s.Name, Namespace: s.NS},
+			Type:       corev1.SecretTypeOpaque,
+			Data: map[string][]byte{
+				"cert": []byte(certOf(s.NS, s.Name)),
+				"key":  []byte(keyOf(s.NS, s.Name)),
 			},
 		})
 	}
@@ -227,8 +255,10 @@ var refsConfigs = []refsB{
 	{Name: "none"},
 	{Name: "grant:router-ns1-sa1->ns2/s", Refs: map[string][]string{"router-ns1-sa1": {"kubernetes-gateway://ns2/s"}}},
 	{Name: "own:router-ns1-sa1->ns1/s;grant:router-ns2-sa2->ns1/s", Refs: map[string][]string{
-		"router-ns1-sa1":  {"kubernetes-gateway://ns1/s"},
-		"router-ns2-sa2":  {"kubernetes-gateway://ns1/s", "kubernetes-gateway://ns1/t-cacert"},
+		"router-ns1-sa1": {"kubernetes-gateway://ns1/s"},
+		"router-ns2-sa2": {"kubernetes-gateway://ns1/s", "kubernetes-gateway://ns1/t-cacert"},
+		// what mergeGateways adds for a MUTUAL server on behalf of secrets ns1/s and ns1/k: the CA parts
+		"router-ns2-sa1":  {"kubernetes-gateway://ns1/s-cacert", "kubernetes-gateway://ns1/k-cacert"},
 		"sidecar-ns1-sa3": {},
 	}},
 }
@@ -257,6 +287,10 @@ var namesB = []nameB{
 	{"kubernetes://only2", "kubernetes://name-only-in-ns2", false},
 	{"kubernetes://g", "kubernetes://generic-name", true},
 	{"kubernetes://t-cacert", "kubernetes://name-cacert(secret-of-that-name-with-key-in-ns1)", false},
+	{"kubernetes://k-cacert", "kubernetes://name-cacert(key/cert-secret-of-that-name-without-ca)", true},
+	{"kubernetes://ns1/k-cacert", "kubernetes://ns1/name-cacert(key/cert-secret-of-that-name-without-ca)", false},
+	{"kubernetes://j-cacert", "kubernetes://name-cacert(generic-key/cert-secret-of-that-name-without-ca)", false},
+	{"kubernetes-gateway://ns1/k-cacert", "kubernetes-gateway://ns1/name-cacert(key/cert-secret-of-that-name-without-ca)", false},
 	{"kubernetes-gateway://ns1/s", "kubernetes-gateway://ns1/name", true},
 	{"kubernetes-gateway://ns2/s", "kubernetes-gateway://ns2/name", true},
 	{"kubernetes-gateway://ns2/s-cacert", "kubernetes-gateway://ns2/name-cacert", false},
